@@ -313,6 +313,74 @@ def s_string_ref_ignorable_first(rng):
     return {'target': first if shape != 'typevar' else mk(ref), 'note': f'{shape} over a name rebound from an ignorable referent to a class'}, hist
 
 
+REDEF_FUNC = """
+from beartype import beartype
+@beartype
+def f(x: 'Cls') -> None:
+    return None
+"""
+REDEF_CLS = """
+import abc
+from beartype import beartype
+from bearverif.userclasses import UA, UB, UC
+@beartype
+class Cls(abc.ABC):
+    def m(self, x: int) -> int:
+        return x
+Cls.register({reg})
+"""
+
+
+def _redef_module():
+    import types
+    name = 'bearverif.c14_redef'
+    mod = sys.modules.get(name)
+    if mod is None:
+        mod = types.ModuleType(name)
+        sys.modules[name] = mod
+    return mod
+
+
+def _redef_run(steps):
+    """Execute definition / call steps in the scratch module of the *currently imported* beartype; returns
+    the Record of f's wrapper.  steps: ('func',) | ('cls', 'UA'|'UB'|'UC') | ('call', 'UA'|...)."""
+    mod = _redef_module()
+    for k in [k for k in vars(mod) if not k.startswith('__')]:
+        delattr(mod, k)
+    frec = None
+    with warnings.catch_warnings():
+        warnings.simplefilter('ignore')
+        for st in steps:
+            if st[0] == 'func':
+                with capture.recording() as recs:
+                    exec(compile(REDEF_FUNC, '<c14 redef>', 'exec', dont_inherit=True), vars(mod))
+                frec = next((r for r in recs if r.name == 'f'), None)
+            elif st[0] == 'cls':
+                exec(compile(REDEF_CLS.format(reg=st[1]), '<c14 redef>', 'exec', dont_inherit=True), vars(mod))
+            else:
+                try:
+                    mod.f(getattr(uc, st[1])())
+                except Exception:
+                    pass
+    return frec
+
+
+def s_decorated_class_redefined(rng):
+    """A callable annotated by a forward reference to a @beartype-decorated class; the class is defined, used,
+    redefined (same module, same name), used again, redefined again ...; the callable is then compared with
+    the same callable defined in a fresh beartype against the final definition only."""
+    regs = ['UA', 'UB', 'UC']
+    n = rng.choice([2, 3, 3, 4])
+    steps = [('func',)]
+    for i in range(n):
+        steps.append(('cls', regs[i % 3]))
+        if rng.random() < 0.8:
+            steps.append(('call', regs[i % 3]))
+    final = [('func',), ('cls', regs[(n - 1) % 3])]
+    return {'custom': 'redef', 'steps': steps, 'final': final, 'target': None,
+            'note': f'{n} definitions of one decorated class, calls in between'}, (lambda o: None)
+
+
 def s_similar_containers(rng):
     fam = rng.sample([List[int], List[bool], Tuple[int, ...], Set[int], Dict[int, int], Optional[List[int]],
                       List[Optional[int]], Tuple[int, int], List[Union[int, str]]], 4)
@@ -396,7 +464,7 @@ def s_conf_lookalikes(rng):
 
 SCRIPTS = [s_grammar_conf_mix, s_conf_lookalikes, s_same_repr, s_hash_collision, s_union_order, s_literal_lookalike, s_literal_lookalike2, s_annotated_meta, s_class_redefined, s_id_reuse,
            s_clear_caches, s_failing_forward_ref, s_similar_containers, s_failing_hint_first,
-           s_string_ref_rebound, s_string_ref_class_rebound, s_string_ref_ignorable_first]
+           s_string_ref_rebound, s_string_ref_class_rebound, s_string_ref_ignorable_first, s_decorated_class_redefined]
 
 
 def cases(tier, seed):
@@ -408,6 +476,8 @@ def cases(tier, seed):
             reps = 6 if tier == 'quick' else 40
         elif sc is s_same_repr:
             reps = 16 if tier == 'quick' else 200
+        elif sc is s_decorated_class_redefined:
+            reps = 6 if tier == 'quick' else 30
         elif sc is s_hash_collision:
             reps = 8 if tier == 'quick' else 60
         elif sc is s_string_ref_ignorable_first:
@@ -428,6 +498,8 @@ def run_case(prop, name, spec, confkw, tier, src):
         sc = {s.__name__: s for s in SCRIPTS}[spec['script']]
         capture.install()
         objs, hist = sc(rng)
+        if objs.get('custom') == 'redef':
+            return _run_redef(out, objs, name, src, t0)
         hist(objs)
         target = objs['target']
         tkw = objs.get('confkw') or {}
@@ -539,6 +611,43 @@ def run_case(prop, name, spec, confkw, tier, src):
     return out
 
 
+def _run_redef(out, objs, name, src, t0):
+    anynode = refsem.Node('any')
+    rec_h = _redef_run(objs['steps'])
+    first = None
+    if rec_h is not None:
+        ga = Generated()
+        ga.hint, ga.confkw, ga.wrapper = None, {}, rec_h
+        first = Encoding(ga, 3, node=anynode)
+    second = None
+    with fresh_beartype():
+        rec_f = _redef_run(objs['final'])
+        if rec_f is not None and first is not None:
+            gb = Generated()
+            gb.hint, gb.confkw, gb.wrapper = None, {}, rec_f
+            second = Encoding(gb, None, node=anynode, share=first)
+    out.obligations += 1
+    if first is None or second is None:
+        out.inconclusive.append('no wrapper captured for the callable annotated by the forward reference')
+        out.wall = time.time() - t0
+        return out
+    out.discharged += 1
+    first.assume.extend(second.assume)
+    for r in second.results.values():
+        first.results[id(r)] = r
+    d = Discharger(first)
+    oblige(out, d, first, 'C14', 'parameter check of a callable whose forward reference names a class that was redefined differs from the '
+                                'same callable in a fresh beartype against the final definition',
+           [z3.Xor(first.guards['param'], second.guards['param'])], ('c14', 'redef'), src)
+    out.queries += d.stats['queries']
+    out.solver_s += d.stats['solver_s']
+    out.nontrivial = True
+    out.sample = {'history_script': name, 'steps': objs['steps'], 'note': objs.get('note', ''),
+                  'obligation': 'unsat(check_after_history(x,r) xor check_fresh(x,r))'}
+    out.wall = time.time() - t0
+    return out
+
+
 def _wrapper_now(target, confkw):
     """Record of the wrapper the currently imported beartype generates for `def ident(x: T) -> T` (None if it
     returns the callable unwrapped)."""
@@ -584,6 +693,25 @@ def replay_c14(p):
     sc = {s.__name__: s for s in SCRIPTS}[src['script']]
     capture.install()
     objs, hist = sc(rng)
+    if objs.get('custom') == 'redef':
+        def verdict(steps):
+            _redef_run(steps)
+            mod = _redef_module()
+            PIN.value = p['draw']
+            try:
+                try:
+                    mod.f(universe.build(p['obj']))
+                    return 'accept'
+                except Exception as e:
+                    return 'raise:' + type(e).__name__
+            finally:
+                PIN.value = None
+        a = verdict(objs['steps'])
+        with fresh_beartype():
+            b = verdict(objs['final'])
+        if a != b:
+            return True, f'after the history {objs["steps"]}: {a}; fresh beartype with the final definition only: {b}; object {universe.build(p["obj"])!r}'
+        return False, f'both {a}'
     hist(objs)
     target = objs['target']
     tkw = objs.get('confkw') or {}
